@@ -130,6 +130,9 @@ def corpus_chunks():
            ("{a: 1, b: 2}", ["[a=(b)]", "[a='(b)']", "[a='(b)'=c]", "[a=[b(c)]=d]", "[a=[(c)]=d]", "[max()\\])", "[max(])",
                              "[()]", "[[(a)]]", "'a(b)'", "'[(a)]'", "(a[(b)])", "[max('a)]]"]),
            ("{a: 1, b: 2}", ["[max(\\')]", "[has_child(\\\")]", "[!min(a\\')]"]),      # F31 (repaired)
+           # a missing key followed by a segment nothing can be built for (F-C11-5, repaired: refused, no mutation)
+           ("{a: 1, b: 2}", ["x.*", "x.**", "x[.=1]", "x[max()]", "x[0:2]", "x[&q]", "x(a)+(b)", "x[-1]", "x.y[0].*", "/x/y/*"]),
+           ("{a: null, l: [1]}", ["a[0:1]", "a[-1]", "a.b.*", "l[3].*", "l[1][.=1]", "a.*", "a[.=1]"]),
            # keyword segments: the repaired defects and the seeded one
            ("x: {a: 1}", ["x[has_child(,)]", "x[!has_child(,)]"]), ("x: [[{a: 1}]]", ["x[0:1][0:1][0][max(a)]"]),
            ("x: {a: 1, b: 2}", ["x.*[parent()]", "x.**[parent()]", "x.*[parent(2)]"]),
